@@ -1,6 +1,6 @@
 (* C06 driver: runs the extracted model of parallel_mergesort on every case of the case file (argv[1]);
    one canonical output line per case (same format as harness/C06/pms_harness.cpp).
-   case:  <elem:int|pair|trk> <S|U> <E|X> <L|G> <p> <oversampling> <k1,k2,...|->  *)
+   case:  <elem:int|pair|trk> <S|U> <E|X> <L|G> <p> <oversampling> <k1,k2,...|-> [<api variant, ignored here>]  *)
 open C06_model
 
 let rec nat_of_int n = if n <= 0 then O else S (nat_of_int (n - 1))
@@ -19,7 +19,7 @@ let () =
     while true do
       let line = input_line ic in
       match List.filter (fun s -> s <> "") (String.split_on_char ' ' line) with
-      | [elem; stab; split; cmp; p; os; keys] ->
+      | elem :: stab :: split :: cmp :: p :: os :: keys :: _ ->
         let keys = if keys = "-" then [] else List.map int_of_string (String.split_on_char ',' keys) in
         let rev = (cmp = "G") and sampling = (split = "X") in
         let input = index_input (List.map n_of_int keys) in
